@@ -45,7 +45,8 @@ class Str(Expression):
         value = out.var('value', self.value)
         end = out.var('end', POS + len(self.value))
 
-        with out.IF(TEXT[POS : end] == value):
+        # (Not TEXT[POS : end]: that is emitted as slice(...), a name the user may have taken.)
+        with out.IF(Code(f'{TEXT}[{POS}:{end}]') == value):
             out += RESULT << value
 
             if self.skip_ignored:
